@@ -187,3 +187,82 @@ func TestVerifBounded_C14_Partitions(t *testing.T) {
 		t.Fatalf("%d mismatches", fails)
 	}
 }
+
+// Sub-rings (shuffle shards) have their own token indexes, merged from the per-zone token lists by a separate code path:
+// the reported ranges must coincide with the sub-ring's own lookups too. Two and three zones, two instances per zone,
+// tokens from the boundary alphabet (0, 1, 2^32-1 included), shards of every size for several tenants.
+func TestVerifBounded_C14_Subrings(t *testing.T) {
+	thorough := os.Getenv("VERIF_TIER") == "thorough"
+	keys := verifC14Keys()
+	cases, distinct, fails := 0, 0, 0
+	bufD, bufH, bufZ := MakeBuffersForGet()
+	alpha := verifC14Alphabet
+	tenants := []string{"t1", "t2", "t3", "tenant-a", "x"}
+	checkRing := func(tag string, r *Ring) {
+		distinct++
+		for id := range r.ringDesc.Ingesters {
+			ranges, err := r.GetTokenRangesForInstance(id)
+			if err != nil {
+				continue
+			}
+			for _, k := range keys {
+				cases++
+				rs, gerr := r.Get(k, WriteNoExtend, bufD, bufH, bufZ)
+				if gerr != nil {
+					continue
+				}
+				assigned := false
+				for _, in := range rs.Instances {
+					if in.Id == id {
+						assigned = true
+					}
+				}
+				if ranges.IncludesKey(k) != assigned {
+					fails++
+					if fails <= 5 {
+						fmt.Printf("BOUNDED-VIOLATION case=c14-subring:%s:%s:key=%d ranges=%v IncludesKey=%v but the sub-ring's lookup assigned=%v\n", tag, id, k, ranges, ranges.IncludesKey(k), assigned)
+					}
+				}
+			}
+		}
+	}
+	for zones := 2; zones <= 3; zones++ {
+		// rotate the alphabet over (zone, instance) slots: every instance gets at least one token; `shift` moves which
+		// instance receives which boundary token
+		slots := zones * 2
+		for shift := 0; shift < slots; shift++ {
+			if !thorough && zones == 3 && shift%2 == 1 {
+				continue
+			}
+			d := NewDesc()
+			now := time.Now()
+			toks := make([][]uint32, slots)
+			for ti, tk := range alpha {
+				s := (ti + shift) % slots
+				toks[s] = append(toks[s], tk)
+			}
+			for s := 0; s < slots; s++ {
+				id := fmt.Sprintf("i-%d-%d", s%zones, s/zones)
+				tl := append([]uint32{}, toks[s]...)
+				sort.Slice(tl, func(a, b int) bool { return tl[a] < tl[b] })
+				d.AddIngester(id, "addr-"+id, fmt.Sprintf("zone-%d", s%zones), tl, ACTIVE, now, false, time.Time{}, nil)
+			}
+			r := verifBuildRing(d, zones, true)
+			checkRing(fmt.Sprintf("zones=%d:shift=%d:whole", zones, shift), r)
+			for _, tn := range tenants {
+				for size := zones; size <= slots; size += zones {
+					sub := r.ShuffleShard(tn, size)
+					sr, ok := sub.(*Ring)
+					if !ok || sr == nil {
+						continue
+					}
+					checkRing(fmt.Sprintf("zones=%d:shift=%d:shard(%s,%d)", zones, shift, tn, size), sr)
+				}
+			}
+		}
+	}
+	fmt.Printf("BOUNDED-CASES name=C14_Subrings n=%d distinct=%d bound=2..3 zones x 2 instances, the boundary alphabet dealt round-robin with every rotation, the whole ring and the shuffle shards of 5 tenants at every multiple-of-zones size; all boundary keys\n", cases, distinct)
+	if fails > 0 {
+		t.Fatalf("%d mismatches", fails)
+	}
+}
